@@ -246,13 +246,20 @@ Proof.
   rewrite L' in L. discriminate.
 Qed.
 
+Lemma dead_inv_all l : forall s now sid, dead s now sid -> dead (inv_all s l) now sid.
+Proof.
+  unfold inv_all. induction l as [|[i w] l IH]; intros s now sid D; cbn [fold_left]; [exact D|].
+  apply IH. cbn [fst snd]. apply dead_set; [exact D|].
+  apply (dead_in_incl (cache_at s w)); [apply invalidate_incl|apply dead_cache_at; exact D].
+Qed.
+
 Lemma dead_step st ev sid :
   dead (fst st) (snd st) sid -> no_establish sid [ev] ->
   dead (fst (fst (sstep st ev))) (snd (fst (sstep st ev))) sid /\
   forall o, In o (snd (sstep st ev)) -> q_sid (fst (fst o)) = sid -> refused o.
 Proof.
   destruct st as [s now]. cbn [fst snd]. intros D Hn.
-  destruct ev as [en w|q wc|sid' w|dt|sid' w|w]; cbn [sstep].
+  destruct ev as [en w|q wc|sid' w|dt|sid' w|w|q wc inv]; cbn [sstep].
   - cbn [fst snd]. split; [|intros o []]. apply dead_set; [exact D|].
     apply dead_in_store; [apply (Hn en w); left; reflexivity|apply dead_cache_at; exact D].
   - destruct (handle_resumption s now q wc) as [[s' rep] res] eqn:E. cbn [fst snd]. split.
@@ -278,6 +285,16 @@ Proof.
     apply (dead_in_incl (cache_at s w)); [apply invalidate_incl|apply dead_cache_at; exact D].
   - cbn [fst snd]. split; [|intros o []]. apply dead_set; [exact D|].
     apply (dead_in_incl (cache_at s w)); [apply sweep_incl|apply dead_cache_at; exact D].
+  - destruct (handle_resumption s now q wc) as [[s' rep] res] eqn:E. cbn [fst snd]. split.
+    + apply dead_inv_all.
+      destruct (handle_cases s now q wc) as [(s1 & e & w & k & L & U & E')|[E' _]]; rewrite E' in E; inversion E; subst.
+      * pose proof (dead_after_lookup s now sid (q_sid q) D) as D1. rewrite L in D1. cbn [fst] in D1.
+        apply dead_srv_store; [|exact D1]. rewrite e_id_renew_lease.
+        apply srv_lookup_some in L as (F & X & _). apply find_sess_some in F as [F1 F2].
+        intro K. pose proof (dead_cache_at s now sid w D e F2 K). congruence.
+      * apply dead_after_lookup. exact D.
+    + intros o [<-|[]] Hs. cbn [fst] in Hs. rewrite (dead_resume s now q wc sid D Hs) in E.
+      inversion E; subst. split; reflexivity.
 Qed.
 
 (* over every continuation of the history *)
@@ -298,6 +315,22 @@ Proof.
     destruct (IH st1 sid D1 Hn2) as [D2 R2].
     destruct (srun st1 h) as [st2 o2]. cbn [fst snd] in *. split; [exact D2|].
     intros o Hin. apply in_app_or in Hin as [Hin|Hin]; auto.
+Qed.
+
+(* a session invalidated while a resumption of it is in flight (its reply being written) is dead:
+   the resumption's cache effects all precede the reply, nothing re-inserts the entry afterwards *)
+Lemma invalidate_during_reply s now q wc :
+  dead (inv_all (fst (fst (handle_resumption s now q wc))) [(q_sid q, InGlobal); (q_sid q, InCustom)]) now (q_sid q).
+Proof.
+  destruct (handle_resumption s now q wc) as [[s' rep] res]. cbn [fst].
+  unfold inv_all. cbn [fold_left fst snd].
+  set (s1 := set_cache_at s' InGlobal (fst (invalidate (cache_at s' InGlobal) (q_sid q)))).
+  assert (G1 : dead_in (s_global s1) now (q_sid q)).
+  { unfold s1, set_cache_at, cache_at. cbn [s_global]. apply invalidate_dead_in. }
+  assert (C1 : s_custom s1 = s_custom s') by reflexivity.
+  unfold set_cache_at, cache_at, dead. destruct (s_custom s1) as [c|] eqn:Ec; cbn [s_global s_custom].
+  - split; [exact G1|apply invalidate_dead_in].
+  - split; [apply invalidate_dead_in|exact I].
 Qed.
 
 (* ---- the caches represent maps in every reachable state ------------------------ *)
@@ -356,9 +389,14 @@ Proof.
   - destruct (s_custom s); cbn [s_global s_custom]; auto using sessions_ok_store.
   - cbn [s_global s_custom]. auto using sessions_ok_store.
 Qed.
+Lemma srv_ok_inv_all l : forall s, srv_ok s -> srv_ok (inv_all s l).
+Proof.
+  unfold inv_all. induction l as [|[i w] l IH]; intros s K; cbn [fold_left]; [exact K|].
+  apply IH. cbn [fst snd]. apply srv_ok_set; [exact K|]. apply sessions_ok_invalidate, srv_ok_cache_at, K.
+Qed.
 Lemma srv_ok_step st ev : srv_ok (fst st) -> srv_ok (fst (fst (sstep st ev))).
 Proof.
-  destruct st as [s now]. cbn [fst]. intro K. destruct ev as [en w|q wc|sid' w|dt|sid' w|w]; cbn [sstep].
+  destruct st as [s now]. cbn [fst]. intro K. destruct ev as [en w|q wc|sid' w|dt|sid' w|w|q wc inv]; cbn [sstep].
   - cbn [fst]. apply srv_ok_set; [exact K|]. apply sessions_ok_store, srv_ok_cache_at, K.
   - destruct (handle_cases s now q wc) as [(s1 & e & w & k & L & U & E')|[E' _]]; rewrite E'; cbn [fst].
     + apply srv_ok_store. pose proof (srv_ok_lookup s now (q_sid q) K) as K1. rewrite L in K1. exact K1.
@@ -368,6 +406,10 @@ Proof.
   - exact K.
   - cbn [fst]. apply srv_ok_set; [exact K|]. apply sessions_ok_invalidate, srv_ok_cache_at, K.
   - cbn [fst]. apply srv_ok_set; [exact K|]. apply sessions_ok_sweep, srv_ok_cache_at, K.
+  - destruct (handle_resumption s now q wc) as [[s' rep] res] eqn:E. cbn [fst]. apply srv_ok_inv_all.
+    destruct (handle_cases s now q wc) as [(s1 & e & w & k & L & U & E')|[E' _]]; rewrite E' in E; inversion E; subst.
+    + apply srv_ok_store. pose proof (srv_ok_lookup s now (q_sid q) K) as K1. rewrite L in K1. exact K1.
+    + apply srv_ok_lookup. exact K.
 Qed.
 Lemma srv_ok_run h : forall st, srv_ok (fst st) -> srv_ok (fst (fst (srun st h))).
 Proof.
